@@ -23,7 +23,7 @@ def render_ft(rng, tag, uri, is_sip, decorate, has_tag=True):
                 u = u + rng.choice([b";transport=tcp", b";lr", b";x=1;lr;y", b";user=phone"])
             if k < 0.25 or k >= 0.75:
                 u += rng.choice([b"?h=v", b"?Subject=hello", b"?a=b&c=d"])
-        disp = rng.choice([b"", b"Alice ", b"\"A. B-1\" ", b"\"-\""])
+        disp = rng.choice([b"", b"Alice ", b"\"A. B-1\" ", b"\"-\"", b"\"Smith; John\" ", b"\"x;tag=y\" "])
         hparams = rng.choice([[], [b"x=y"], [b"a", b"b=c-d"]])
     tagp = []
     if has_tag:
